@@ -55,14 +55,14 @@ def minimise(mod, case, pred, budget_s):
 
 def oracle_fails(mod, clause=None):
     def pred(c):
-        r = mod.run_case(c)
+        r = common.safe_run_case(mod, c)
         return any(clause is None or f["clause"] == clause for f in r.oracle)
     return pred
 
 
 def model_differs(mod):
     def pred(c):
-        r = mod.run_case(c)
+        r = common.safe_run_case(mod, c)
         return common.compare_with_model([r])[0] is not None
     return pred
 
@@ -78,7 +78,7 @@ def replay(mod, pid, path):
         print("VIOLATION property=%s replay=%s no-failing-input-found" % (pid, path))
         return 1
     case = obj["case"]
-    r = mod.run_case(case)
+    r = common.safe_run_case(mod, case)
     if r.oracle:
         print("replay: oracle fails: %s" % json.dumps(r.oracle[0])[:600])
         print("VIOLATION property=%s replay=%s" % (pid, path))
@@ -196,7 +196,7 @@ def main():
         for cl, (_, s) in sorted(by_clause.items()):
             left = max(5, min(60, deadline - time.time()))
             small = minimise(mod, s["case"], oracle_fails(mod, cl), left)
-            r = mod.run_case(small)
+            r = common.safe_run_case(mod, small)
             fails = [f for f in r.oracle if f["clause"] == cl] or r.oracle or s["oracle"]
             payload = dict(property=pid, kind="oracle", case=small, clause=cl, detail=fails[0]["detail"],
                            seed=seed, tier=tier, key=common.sha(small),
@@ -214,7 +214,7 @@ def main():
             s = min(model_bad, key=lambda s: len(json.dumps(s["case"])))
             left = max(5, min(45, (deadline - time.time()) / 2))
             small = minimise(mod, s["case"], model_differs(mod), left)
-            r = mod.run_case(small)
+            r = common.safe_run_case(mod, small)
             if r.oracle:
                 found = (small, r.oracle[0])
         stream = 0
@@ -238,7 +238,7 @@ def main():
                 print("  clause: %s\n  detail: %s" % (f["clause"], str(f["detail"])[:1500]))
         else:
             if model_bad:
-                r = mod.run_case(small)
+                r = common.safe_run_case(mod, small)
                 d = common.compare_with_model([r])[0]
                 payload = dict(property=pid, kind="correspondence", case=small, first_difference=d,
                                seed=seed, tier=tier, key=common.sha(small),
